@@ -43,16 +43,35 @@ static void Setup(World& w, int nx, int nc, const StructuredData& s1v, const Str
   w.interp = std::make_unique<Interpreter>(m->RSLang(), m->RSLang().ASTContext(),
     [m](const std::string& n) -> std::optional<StructuredData> { auto uid = m->Core().FindAlias(n); if (!uid) return std::nullopt; return m->Values().SDataFor(*uid); });
 }
+struct InterpData { int nx, nc; StructuredData s1, s2; };
+static const std::vector<InterpData>& Interpretations() {
+  static const std::vector<InterpData> d = {
+    { 2, 3, S({ Factory::TupleV({ 1, 1 }), Factory::TupleV({ 1, 2 }) }), S({ Factory::EmptySet(), Factory::SetV({ 1 }) }) },
+    { 1, 2, Factory::EmptySet(), S({ Factory::SetV({ 1 }) }) },
+    { 3, 1, S({ Factory::TupleV({ 2, 1 }), Factory::TupleV({ 3, 3 }), Factory::TupleV({ 1, 2 }) }), S({ Factory::SetV({ 1, 2 }), Factory::SetV({ 2, 3 }), Factory::SetV({ 3 }) }) },
+    { 3, 2, S({ Factory::TupleV({ 1, 2 }), Factory::TupleV({ 2, 3 }) }), S({ Factory::SetV({ 1 }), Factory::SetV({ 2, 3 }) }) } };
+  return d;
+}
 static std::vector<std::unique_ptr<World>>& Worlds() {
   static std::vector<std::unique_ptr<World>> w;
   if (w.empty()) {
-    for (int k = 0; k < 4; ++k) w.emplace_back(std::make_unique<World>());
-    Setup(*w[0], 2, 3, S({ Factory::TupleV({ 1, 1 }), Factory::TupleV({ 1, 2 }) }), S({ Factory::EmptySet(), Factory::SetV({ 1 }) }));
-    Setup(*w[1], 1, 2, Factory::EmptySet(), S({ Factory::SetV({ 1 }) }));
-    Setup(*w[2], 3, 1, S({ Factory::TupleV({ 2, 1 }), Factory::TupleV({ 3, 3 }), Factory::TupleV({ 1, 2 }) }), S({ Factory::SetV({ 1, 2 }), Factory::SetV({ 2, 3 }), Factory::SetV({ 3 }) }));
-    Setup(*w[3], 3, 2, S({ Factory::TupleV({ 1, 2 }), Factory::TupleV({ 2, 3 }) }), S({ Factory::SetV({ 1 }), Factory::SetV({ 2, 3 }) }));
+    for (const auto& d : Interpretations()) { w.emplace_back(std::make_unique<World>()); Setup(*w.back(), d.nx, d.nc, d.s1, d.s2); }
   }
   return w;
+}
+// a fifth model whose data is replaced before every evaluation (its interpreter lives on): what an evaluation returns must
+// depend on the current data only, whatever was evaluated - successfully or not - under the previous data
+static World& Rotating() {
+  static std::unique_ptr<World> w;
+  if (!w) { w = std::make_unique<World>(); const auto& d = Interpretations()[0]; Setup(*w, d.nx, d.nc, d.s1, d.s2); }
+  return *w;
+}
+static void Retarget(World& w, size_t k) {
+  const auto& d = Interpretations()[k];
+  w.m.Values().ResetDataFor(w.x1); for (int i = 0; i < d.nx; ++i) w.m.Values().AddBasicElement(w.x1, "x" + std::to_string(i));
+  w.m.Values().ResetDataFor(w.c1); for (int i = 0; i < d.nc; ++i) w.m.Values().AddBasicElement(w.c1, "c" + std::to_string(i));
+  (void)w.m.Values().SetStructureData(w.s1, d.s1);
+  (void)w.m.Values().SetStructureData(w.s2, d.s2);
 }
 static std::string AsciiType(std::string s) {
   auto rep = [&](const std::string& a, const std::string& b) { size_t p; while ((p = s.find(a)) != std::string::npos) s.replace(p, a.size(), b); };
@@ -221,6 +240,24 @@ static void Handle(const json& c, vh::Report& r) {
       if (On("C01")) {
         if (!kv["ok"].get<bool>()) r.Violation("C01", "value-but-evaluation-undefined", w2, { {"got", iv}, {"why", kv["why"]} });
         else if (isBool ? (iv != kv["v"]) : !rsconv::SameValue(iv, kv["v"])) r.Violation("C01", "value", w2, { {"got", iv}, {"spec", kv["v"]} });
+      }
+    }
+    // ---- the same text on the model whose data has just been replaced (interpretation chosen by the running count of evaluations)
+    if (On("C01")) {
+      static size_t turn = 0; const size_t k = ++turn % worlds.size();
+      const auto& sv = c["vals"][k]; const auto& kv = c["kvals"][k];
+      const bool noOracle = (!sv["ok"].get<bool>() && sv["why"] == "limit") || (!kv["ok"].get<bool>() && kv["why"] == "limit");
+      auto& rot = Rotating(); Retarget(rot, k);
+      ++r.checks; r.Count("evaluations.after-data-change");
+      const auto res = rot.interp->Evaluate(text, syn);
+      json w2 = wit; w2["interp"] = k; w2["afterDataChange"] = true;
+      if (noOracle) { }
+      else if (!res.has_value()) { if (sv["ok"].get<bool>()) r.Violation("C01", "fails-but-value-defined (after a data change)", w2, { {"spec", sv["v"]} }); }
+      else {
+        json iv; const bool isBool = std::holds_alternative<bool>(*res);
+        if (isBool) iv = std::get<bool>(*res); else iv = rsconv::ValueToJson(std::get<StructuredData>(*res));
+        if (!kv["ok"].get<bool>()) r.Violation("C01", "value-but-evaluation-undefined (after a data change)", w2, { {"got", iv}, {"why", kv["why"]} });
+        else if (isBool ? (iv != kv["v"]) : !rsconv::SameValue(iv, kv["v"])) r.Violation("C01", "value (after a data change)", w2, { {"got", iv}, {"spec", kv["v"]} });
       }
     }
   }
